@@ -526,9 +526,14 @@ class AlignmentRotation(HomogFamilyAlignment, Rotation):
 
     def __init__(self, source, target, allow_mirror=False):
         HomogFamilyAlignment.__init__(self, source, target)
-        Rotation.__init__(
-            self, optimal_rotation_matrix(source, target, allow_mirror=allow_mirror)
+        # Build the state directly rather than through Rotation.__init__, which
+        # calls set_rotation_matrix and would overwrite the target that was
+        # passed in with the aligned source.
+        h_matrix = np.eye(source.n_dims + 1)
+        h_matrix[:-1, :-1] = optimal_rotation_matrix(
+            source, target, allow_mirror=allow_mirror
         )
+        Similarity.__init__(self, h_matrix, copy=False, skip_checks=True)
         self.allow_mirror = allow_mirror
 
     def set_rotation_matrix(self, value, skip_checks=False):
